@@ -646,6 +646,99 @@ def Circ.stopEnd (c : Circ) (t : Time) (complete : Bool) : Circ :=
 /-- a stop whose clean-up takes no time -/
 def Circ.stop (c : Circ) (t : Time) : Circ := (c.stopBegin t).stopEnd t true
 
+/-! ## a storage that fails
+
+The storage is the application's `MutableMapping`; its operations may raise (disk full, closed shelf).
+`Faults` says which operations raise at the moment.  The functions below say exactly what the code does then:
+`save_persistent_state` suppresses an error of the write (and of `get_state()`) and removes the entry — but
+the `pop` of that clean-up is not protected; `init_from_persistent_data` suppresses an error of the read;
+`_check_persistent_data` and the stop-time write in `run_forever` are not protected at all. -/
+
+structure Faults where
+  write : Bool := false          -- `__setitem__` raises
+  remove : Bool := false         -- `pop` / `__delitem__` raise
+  read : List String := []       -- `__getitem__` of these keys raises (something else than KeyError)
+  iter : Bool := false           -- `keys()` / iteration raises
+  deriving Repr, Inhabited, DecidableEq
+
+/-- `save_persistent_state` on a failing storage; the flag: an exception leaves the method -/
+def saveBlkF (f : Faults) (s : Storage) (b : Blk) : Storage × Bool :=
+  if !b.persistent then (s, false) else
+  match getState b.kind b.dyn with
+  | some e =>
+    if f.write then                       -- the write raises inside the `try`: "remove stale data"
+      (if f.remove then (s, true) else (s.erase b.key, false))
+    else (s.set b.key e, false)
+  | none => if f.remove then (s, true) else (s.erase b.key, false)
+
+/-- the saving loops (after the initialisation, at the stop): the first exception ends the loop -/
+def saveAllF (f : Faults) (s : Storage) : List Blk → Storage × Bool
+  | [] => (s, false)
+  | b :: r => match saveBlkF f s b with
+    | (s1, true) => (s1, true)
+    | (s1, false) => saveAllF f s1 r
+
+/-- what the caller of `event()` gets on a failing storage -/
+inductive ResF where
+  | res (r : Res)      -- as always
+  | saveError          -- the handler returned, then an exception of the storage left the sync save
+  deriving DecidableEq, Repr, Inhabited
+
+/-- the sync save of the wrapper redone on the failing storage (`c`: before the event, `c'`: after it) -/
+def resave (c c' : Circ) (f : Faults) (i : Nat) (v : Val) : Circ × ResF :=
+  match c'.blocks[i]? with
+  | some b' =>
+    if b'.persistent && b'.sync && b'.dyn.inited then
+      match saveBlkF f c.store b' with
+      | (s, false) => ({ c' with store := s }, .res (.ret v))
+      | (s, true) => ({ c' with store := s }, .saveError)
+    else (c', .res (.ret v))
+  | none => (c', .res (.ret v))
+
+/-- `AddonPersistence.event` on a failing storage: the handler runs as always; when the sync save lets an
+    exception out, the caller gets that exception instead of the handler's result (`saveError`; the
+    circuit is not aborted by it) -/
+def Circ.eventF (c : Circ) (f : Faults) (cal : Val → Option Bool) (i : Nat) (ev : Ev) : Option (Circ × ResF) :=
+  match c.event cal i ev with
+  | some (c', .ret v) => some (resave c c' f i v)
+  | some (c', r) => some (c', .res r)
+  | none => none
+
+/-- a timer fires on a failing storage (an exception of the sync save ends up in the loop's handler) -/
+def Circ.fireF (c : Circ) (f : Faults) (cal : Val → Option Bool) (i : Nat) : Option (Circ × ResF) :=
+  match c.fire cal i with
+  | some (c', .ret v) => some (resave c c' f i v)
+  | some (c', r) => some (c', .res r)
+  | none => none
+
+/-- the beginning of the stop on a failing storage; the flag: an exception leaves `run_forever` before the
+    clean-up — no (further) save, no stop time, NO `_stop_sblocks` (no block gets its `stop()`) -/
+def Circ.stopBeginF (c : Circ) (f : Faults) (t : Time) : Circ × Bool :=
+  if c.phase != .running && c.phase != .aborted && c.phase != .failed then (c, false) else
+  if !c.startOk then (c.stopBegin t, false) else
+  match saveAllF f c.store c.blocks with
+  | (s, true) => ({ c with now := t, phase := .stopped, store := s }, true)
+  | (s, false) =>
+    if f.write then ({ c with now := t, phase := .stopped, store := s }, true)      -- the stop-time write raises
+    else ({ c with now := t, phase := if c.phase == .failed then .stoppingF else .stopping,
+                   store := s.set stopKey (.ts t) }, false)
+
+/-- does `_check_persistent_data` raise?  (read of the stop time, `keys()`, the first `del` of the purge) -/
+def checkRaises (f : Faults) (s : Storage) (bs : List Blk) : Bool :=
+  f.read.contains stopKey || f.iter ||
+    (f.remove && s.any (fun p => !(reserved p.1 || (persistentKeys bs).contains p.1)))
+
+/-- the start on a storage whose reads / purge may fail (writes work): an exception of
+    `_check_persistent_data` ends the start before any block is started; an unreadable entry of a block is
+    treated as absent (error suppressed) -/
+def Circ.startF (c : Circ) (f : Faults) (cal : Val → Option Bool) (now : Time) : Circ :=
+  if c.phase != .idle then c else
+  if checkRaises f c.store c.blocks then
+    { c with now := now, phase := .stopped, startOk := false,
+             ts := if f.read.contains stopKey then c.ts else readTs c.store }       -- (the stop time is read first)
+  else
+  ({ c with store := c.store.filter (fun p => !(f.read.contains p.1)) } : Circ).start cal now .ok
+
 /-! ## histories -/
 
 inductive Op where
